@@ -1416,6 +1416,15 @@ func (w *Walker) stdModel(name string, args []*Term, rt types.Type) *Term {
 				return mkNil(rt)
 			}
 		}
+	case "(netip.AddrPort).Port":
+		// selectors of a constructor: Port(AddrPortFrom(a, p)) = p, Addr(AddrPortFrom(a, p)) = a
+		if len(args) == 1 && args[0].Op == "call" && args[0].Name == "netip.AddrPortFrom" && len(args[0].Args) == 2 {
+			return args[0].Args[1]
+		}
+	case "(netip.AddrPort).Addr":
+		if len(args) == 1 && args[0].Op == "call" && args[0].Name == "netip.AddrPortFrom" && len(args[0].Args) == 2 {
+			return args[0].Args[0]
+		}
 	case "netip.MustParseAddr":
 		// canonical form of the unspecified IPv4 address
 		if str, ok := args[0].StrVal(); ok && str == "0.0.0.0" {
